@@ -29,7 +29,7 @@ PROPERTY = "C20"
 ISOLATE = True
 TIERS = {
     "quick": {"runs": 8000, "budget_s": 100, "timeout_s": 40, "chunk": 16, "det_sample": 48, "det_runs": 300},
-    "thorough": {"runs": 110000, "budget_s": 900, "timeout_s": 120, "chunk": 16, "det_sample": 64, "det_runs": 1000},
+    "thorough": {"runs": 150000, "budget_s": 700, "timeout_s": 120, "chunk": 16, "det_sample": 64, "det_runs": 1000},
 }
 RULE = ("seeded plans: header (3 grids: main / same shape but unequal / other shape; 3 field kinds out of ScalarField, "
         "VectorField, Tensor2Field, FieldCollection of mixed ranks; real or complex dtype) + 8-45 operations on <= 5 live "
